@@ -85,3 +85,74 @@ Theorem own_only_output_keys_refuted :
   ilookup "a"%string (stored false chain) = None /\ overlay (map fst chain) "a"%string = Some 1%Z /\
   ilookup "a"%string (stored true chain) = Some 1%Z.
 Proof. vm_compute. auto. Qed.
+
+(** ---- a stored partition passed on unchanged by another function ---- *)
+Lemma lookup_not_in_keys {A} x (t : list (string * A)) : ~ In x (map fst t) -> lookup x t = None.
+Proof.
+  intros H. destruct (lookup x t) eqn:E; [|reflexivity]. exfalso. apply H. eapply lookup_some_in_keys. exact E.
+Qed.
+
+Lemma lookup_filter {A} (P : string * A -> bool) (t : list (string * A)) x : NoDup (map fst t) ->
+  lookup x (filter P t) = match lookup x t with Some e => if P (x, e) then Some e else None | None => None end.
+Proof.
+  induction t as [|[k e] r IH]; intros Hnd; simpl; [reflexivity|].
+  inversion Hnd as [|? ? Hni Hnd']; subst.
+  destruct (String.eqb_spec x k) as [->|Hn].
+  - destruct (P (k, e)) eqn:EP; simpl.
+    + rewrite String.eqb_refl. reflexivity.
+    + rewrite IH by auto. rewrite (lookup_not_in_keys k r Hni). reflexivity.
+  - destruct (P (k, e)); simpl.
+    + destruct (String.eqb_spec x k); [contradiction|]. apply IH; auto.
+    + apply IH; auto.
+Qed.
+
+Lemma keys_filter_map_nodup (t : index) : NoDup (map fst t) ->
+  NoDup (map fst (map (fun kv => (fst kv, fst (snd kv))) (filter (fun kv => negb (snd (snd kv))) t))).
+Proof.
+  rewrite map_map. simpl. induction t as [|[k e] r IH]; intros H; simpl; [constructor|].
+  inversion H as [|? ? Hni Hnd]; subst. destruct (negb (snd e)); simpl; [|auto].
+  constructor; [|auto]. intros Hin. apply Hni. apply in_map_iff in Hin as (kv & <- & Hkv).
+  apply filter_In in Hkv as (Hkv & _). apply in_map. exact Hkv.
+Qed.
+
+Lemma lookup_map_val (t : index) x :
+  lookup x (map (fun kv => (fst kv, fst (snd kv))) t) = option_map fst (lookup x t).
+Proof. induction t as [|[k e] r IH]; simpl; auto. destruct (String.eqb x k); auto. Qed.
+
+(** C17: the copy stored by the relaying function reads, key by key, as the partition it was given *)
+Theorem relay_lookup t k : NoDup (map fst t) -> ilookup k (relay_index true t) = ilookup k t.
+Proof.
+  intros Hnd. unfold ilookup, relay_index.
+  rewrite lookup_fold_own by (apply keys_filter_map_nodup; exact Hnd).
+  rewrite lookup_map_val, !lookup_filter by exact Hnd.
+  destruct (lookup k t) as [[v b]|]; simpl; [|reflexivity]. destruct b; reflexivity.
+Qed.
+
+Theorem relay_drops_inherited_refuted :
+  let t := stored true [([("c", 3)], FromStore); ([("a", 1)], FromStore)]%string%Z in
+  ilookup "a"%string t = Some 1%Z /\ ilookup "a"%string (relay_index false t) = None /\ ilookup "a"%string (relay_index true t) = Some 1%Z.
+Proof. vm_compute. auto. Qed.
+
+Lemma keys_iset k e (t : index) : NoDup (map fst t) -> NoDup (map fst (iset k e t)) /\ (forall x, In x (map fst (iset k e t)) <-> x = k \/ In x (map fst t)).
+Proof.
+  induction t as [|[k' e'] r IH]; intros H; simpl.
+  - split; [constructor; [intros []|constructor]|]. intros x. split; [intros [<-|[]]; auto|intros [->|[]]; auto].
+  - inversion H as [|? ? Hni Hnd]; subst. destruct (String.eqb_spec k k') as [->|Hn]; simpl.
+    + split; [constructor; auto|]. intros x. split; [intros [<-|Hin]; auto|intros [->|[<-|Hin]]; auto].
+    + destruct (IH Hnd) as (A & B). split.
+      * constructor; [|exact A]. rewrite B. intros [E|Hin]; [congruence|contradiction].
+      * intros x. rewrite B. split; [intros [<-|[->|Hin]]; auto|intros [->|[<-|Hin]]; auto].
+Qed.
+
+Lemma stored_nodup chain : NoDup (map fst (stored true chain)).
+Proof.
+  induction chain as [|[own prov] rest IH]; [constructor|]. rewrite stored_true_cons. unfold store_index.
+  assert (H0 : NoDup (map fst (map (fun kv : string * (Z * bool) => (fst kv, (fst (snd kv), true))) (stored true rest)))).
+  { rewrite map_map. simpl. exact IH. }
+  revert H0. generalize (map (fun kv : string * (Z * bool) => (fst kv, (fst (snd kv), true))) (stored true rest)).
+  induction own as [|[k v] r IHo]; intros acc Hacc; simpl; [exact Hacc|].
+  apply IHo. apply keys_iset. exact Hacc.
+Qed.
+
+Corollary relay_of_stored_chain chain k : ilookup k (relay_index true (stored true chain)) = ilookup k (stored true chain).
+Proof. apply relay_lookup. apply stored_nodup. Qed.
